@@ -1779,17 +1779,23 @@ func (fr *Frame) dispatchInvoke(st *State, c *ssa.CallCommon, recv Val, args []V
 	var sts []*State
 	var results [][]Val
 	var known []string
+	allReturn := true
 	for _, im := range impls {
 		is := vc.define("dyn", "Bool", "(= "+recv.C[0]+" "+vc.typeID(im.pt)+")")
 		known = append(known, is)
 		s := base.Clone()
-		fr.curCond = andAll(entryCond, is)
+		bc := andAll(entryCond, is)
+		fr.curCond = bc
 		fr.dead = false
 		rv := Val{T: im.pt, C: []string{recv.C[1]}}
 		res := fr.staticCall(s, im.fn, append([]Val{rv}, args...), nil, pos)
 		if fr.dead || fr.curCond == "false" {
 			fr.dead = false
+			allReturn = false
 			continue
+		}
+		if fr.curCond != bc {
+			allReturn = false
 		}
 		conds = append(conds, fr.curCond)
 		sts = append(sts, s)
@@ -1801,16 +1807,25 @@ func (fr *Frame) dispatchInvoke(st *State, c *ssa.CallCommon, recv Val, args []V
 	for _, k := range known {
 		nk = append(nk, notT(k))
 	}
-	fr.curCond = andAll(append([]string{entryCond}, nk...)...)
+	oc := andAll(append([]string{entryCond}, nk...)...)
+	fr.curCond = oc
 	fr.dead = false
 	ores := fr.havocCall(other, "interface method "+key+" on a type outside the repository", sig, pos, true)
+	if fr.curCond != oc {
+		allReturn = false
+	}
 	conds = append(conds, fr.curCond)
 	sts = append(sts, other)
 	results = append(results, ores)
 	merged := vc.mergeStates(conds, sts)
 	merged.defers = base.defers
 	*st = *merged
-	fr.curCond = vc.define("disp_"+c.Method.Name(), "Bool", orAll(conds...))
+	if allReturn {
+		// every case returns on every path and the cases are exhaustive: the disjunction is the entry condition itself
+		fr.curCond = entryCond
+	} else {
+		fr.curCond = vc.define("disp_"+c.Method.Name(), "Bool", orAll(conds...))
+	}
 	fr.dead = false
 	var out []Val
 	for i, t := range sigResults(sig) {
